@@ -178,6 +178,21 @@ Section C17.
            ++ iter_entries num zero ev o t v1 names 0 k ++ end_entry num zero t names x (vals_of s')).
   Proof. exact (fun H1 H2 H3 => trace_of_run num sub absf ltb isfin zero cfg a reset ev before after H1 H2 H3 d o t s tr p s' tr' out). Qed.
 
+  (* EVERY path, exceptions included (pre-existing NaN, hook failures, numerical errors, invalid `errors`, infeasible
+     period, min_iter > max_iter ...): what the call appends to the period's Trace is a run
+     start [, before [, 0, 1, .., m [, end]]] — no gap, nothing out of order, 'end' only last and only after >= 1 pass. *)
+  Theorem C17_trace_every_path cfg a reset d o t s (tr : traces num) p :
+    shape_pres num ev -> shape_pres num before -> shape_pres num after ->
+    truthy a = true ->
+    names_valid num (vals_of s) t (names_of cfg (length (vals_of s)) a) ->
+    py_pos (length tr) t = Some p -> length tr = length (status s) ->
+    reset = true \/ width_ok num (nth p tr (empty_trace num)) (length (names_of cfg (length (vals_of s)) a)) ->
+    let R := traced_solve_t cfg a reset ev before after d o t s tr in
+    exists l, run_index (map fst l) /\
+      nth p (snd (fst R)) (empty_trace num)
+      = pushes num (names_of cfg (length (vals_of s)) a) reset (nth p tr (empty_trace num)) l.
+  Proof. exact (fun H1 H2 H3 => trace_every_path num sub absf ltb isfin zero cfg a reset ev before after H1 H2 H3 d o t s tr p). Qed.
+
   (* ... and with reset=True (handed to every trace_t call of the run) only the last snapshot survives *)
   Theorem C17_trace_reset_keeps_last_only cfg a d o t s (tr : traces num) p s' tr' :
     shape_pres num ev -> shape_pres num before -> shape_pres num after ->
@@ -229,6 +244,7 @@ Print Assumptions C17_traced_solve_t_start_fails.
 Print Assumptions C17_trace_shape_solved.
 Print Assumptions C17_trace_shape_unsolved.
 Print Assumptions C17_trace_of_run.
+Print Assumptions C17_trace_every_path.
 Print Assumptions C17_trace_reset_keeps_last_only.
 Print Assumptions C17_trace_width_mismatch_refuted.
 Print Assumptions C17_trace_out_of_span_refuted.
